@@ -7,13 +7,14 @@ MANIFEST = {
     "text": ("Kernel-checked theorems about Bank::accrue_interest for all banks, fee settings, elapsed times and magnitudes: share "
              "values and fee buckets never decrease, program fees are zero when disabled, accruing twice at one time is a no-op, and "
              "what is credited to depositors plus fees never exceeds what borrowers are charged beyond an explicit fixed-point "
-             "allowance (valid seven-point curves). Tied to the real accrue_interest by differential execution on banks with "
-             "random totals, share values, curves, fees and clock advances; the oracle re-checks every statement (and the opposite "
-             "conservation direction) on the real bank state in exact integers."),
+             "allowance, and conversely the charge never exceeds the credit plus fees beyond a second explicit allowance (valid seven-point curves; "
+             "the conservation clause is proved two-sided). Tied to the real accrue_interest by differential execution on banks with "
+             "random totals, share values, curves, fees and clock advances; the oracle re-checks every statement (both "
+             "conservation directions) on the real bank state in exact integers."),
     "design_ref": "DESIGN.md §7 C06",
     "technique": "Coq proof (inversion of accrue_interest + chained floor inequalities) + model/implementation correspondence on the bank state machine",
 }
-THEOREMS = ["C06_monotone_nonneg_fees_program_fee_off", "C06_idempotent", "C06_credit_le_charge_partial",
+THEOREMS = ["C06_monotone_nonneg_fees_program_fee_off", "C06_idempotent", "C06_credit_le_charge_partial", "C06_charge_le_credit",
             "C06_deposit_accrues_first", "C06_withdraw_accrues_first", "C06_borrow_accrues_first", "C06_repay_accrues_first",
             "C06_close_balance_accrues_first", "C06_bankruptcy_accrues_first", "C06_liquidation_accrues_both_banks_first"]
 # handler-level freshness theorems are added to this list when props/C06.v gains them
@@ -26,7 +27,7 @@ ASSUMPTIONS = [
     "'applied first in every handler' is checked at handler level (suite hops: Bank.last_update == clock after every successful user instruction)",
 ]
 OBSERVATIONS = [
-    "the proved conservation direction is credit <= charge + allowance (the one solvency needs); the opposite direction is evaluated by the oracle only",
+    "both conservation directions are proved (C06_credit_le_charge_partial, C06_charge_le_credit); the oracle evaluates both on the real bank state with allowances of the same form (multiples of the asset and liability amounts per elapsed year plus the share totals)",
     "accrual on a bank whose total assets or total liabilities amount is 0 only moves last_update",
 ]
 ONE = G.ONE
